@@ -2,7 +2,7 @@
 from cfg import Inconclusive, op_place, show, walk, strip_casts
 from common import (atomic_op, calls_to, callee, callee_names, closure_consumer, closure_creations,
                     field_chain, fn_of, find_fn, get_fn, head_sources, peel, site, uses_of_local, guards_of)
-from props.c08 import slot_writes, active_stores, WRITERS, VEC, is_diverging
+from props.c08 import slot_writes, slot_value_block, active_stores, WRITERS, VEC, is_diverging
 from props.c09 import classify
 
 PROP = "C11"
@@ -234,13 +234,8 @@ def rule_panic_order(ctx):
         for bi, t, entry in sw:
             n += 1
             key = "%s|callback-before-move|1" % fn.path
-            # the value moved into the slot: MaybeUninit::new(move value)
-            val = fn.expr_of_operand(t["args"][1])
-            mv_block = None
-            if val[0] == "call" and str(val[1]).endswith("MaybeUninit::<T>::new"):
-                mv_block = val[4][0]
-            else:
-                raise Inconclusive("%s: slot write value is not MaybeUninit::new(..)" % w)
+            # the block in which the value is consumed on its way into the slot
+            mv_block = slot_value_block(fn, bi, t)
             if all(fn.dominates(cb, mv_block) and cb != mv_block for cb, _ in cbs):
                 ctx.ok(site(fn, bi), "fill_columns runs before the value is moved into the slot")
             else:
